@@ -33,14 +33,14 @@ type DriverOpts struct {
 
 type workerRun struct {
 	checkpoint *Summary
-	shard    int
-	lastUnit int
-	sum      *Summary
-	viol     []Msg
-	hang     *Msg
-	err      error
-	stderr   string
-	hashes   []string
+	shard      int
+	lastUnit   int
+	sum        *Summary
+	viol       []Msg
+	hang       *Msg
+	err        error
+	stderr     string
+	hashes     []string
 }
 
 func spawnWorker(self string, o DriverOpts, args []string, wr *workerRun) {
@@ -396,7 +396,7 @@ type triageResult struct {
 	kind string // violation | excepted | infra
 	why  string
 	msg  Msg
-	next int // first unit after the offending one (the shard continues there)
+	next int      // first unit after the offending one (the shard continues there)
 	rest *Summary // the careful re-run finished the shard: what it measured
 }
 
